@@ -32,5 +32,6 @@ var validateMap = map[DataType]func(v interface{}) bool{
 
 // isValidValue validates if the Value matches the expected go type
 func (d DataType) isValidValue(v interface{}) bool {
-	return validateMap[d](v)
+	f, isDefined := validateMap[d]
+	return isDefined && f(v)
 }
